@@ -7,19 +7,37 @@ Space  : the correlation family K of DESIGN.md section 4 (table size x spacing
          order), ThermochemIncomplete and ThermochemGroup (dict insertion
          order), and a ThermochemGroup assembled by update() (table first,
          reference values merged later); Cp also for float and integer arrays; plus every group of every shipped library.
+         Third wave - the construction path of every shipped correlation:
+         (a) every base member of K is also written as the YAML text of a
+         library entry (non-dimensional form, numbers as repr) and read back
+         through yaml_io as ThermochemRawData / Incomplete / Group;
+         (b) family Y: the non-polynomial table (N per NY, spacing per
+         SPACINGS_Y) x 7 T_ref placements (the six of K + 'default': 298.15 K
+         with the T_ref line left out of the text) x {wide range, no range}
+         x ALL 25 pairs of the reference-value alphabets of
+         domains/w3_c05.py (0.0, -0.0, 1e-300, an ordinary value, 1e6), each
+         built by the three constructors AND read from YAML by the three
+         classes with the numbers spelled as repr / integer / %.17e and with
+         the points listed in reversed order.
 Oracle : knots reproduced; reference values returned at T_ref; T*H/RT and S/R
          differences equal the integrals of the correlation's own Cp/R (held at
          the end values outside the table) computed by an independent
          Gauss-Legendre quadrature split at the knots, and - when the
          interpolant reproduces the generating polynomial on the grid - also
          equal to the closed form; G = H - S; all supply orders agree.
+         A correlation read from YAML must load and evaluate, reproduce the
+         knots, return the reference values at T_ref, give G = H - S and agree
+         to 1e-12 on the small grid with the constructor object made from the
+         same numbers (which is itself judged against the integrals).
 """
 import itertools
+import json
 import math
 
 from ..runner import Result
 from ..models import thermoref as tr
 from ..domains import libs
+from ..domains import w3_c05 as w3
 
 LEVEL = 'exploration'
 # scipy quad over a piecewise-cubic integrand: observed discrepancies up to
@@ -31,24 +49,46 @@ HS = {'quick': [(0.0, 0.0), (-12.5, 31.25), (7.75, -2.5)],
 COEF = [3.0, 4e-3, -2e-6, 1.5e-9]
 SEQ = [2.0, 0.0, -1.5, 3.0, 2.5, 4.0, 1.0, 3.5, 3.25, 0.5, 2.75, 4.5, 1.5, 3.75,
        2.25, 5.0]
+# family Y (reference-value alphabet x construction route, see run_Y)
+NY = {'quick': [1, 2, 5], 'thorough': [1, 2, 3, 4, 5, 8]}
+SPACINGS_Y = {'quick': lambda N: ['eq'] if N == 1 else ['uneq'],
+              'thorough': lambda N: ['eq'] if N == 1 else ['eq', 'uneq']}
+YAML_ROUTES = [(how, 'sorted') for how in w3.SPELLINGS] + [('repr', 'reversed')]
 PLACEMENTS = ['below', 'first', 'between', 'interior', 'last', 'above']
 BOUND = {t: 'N in %s x 2 spacings x (polynomial degree 0..min(3,N-1) + one '
             'non-polynomial sequence with a zero and a negative value) x 6 '
             'T_ref placements x 3 ranges x %d (H_ref,S_ref) pairs x all supply '
-            'orders x 3 classes; 9 shipped libraries, every group'
-            % (NS[t], len(HS[t])) for t in NS}
+            'orders x 3 classes; each base member also read from YAML text by 3 '
+            'classes; family Y: N in %s x spacings %s x 7 T_ref placements (incl. '
+            'the default with no T_ref line) x {wide, no} range x %d x %d '
+            'reference values (0.0, -0.0, 1e-300, ordinary, 1e6) x (3 constructors '
+            '+ 3 classes x %d YAML routes: spellings repr/int/%%.17e, reversed '
+            'point order); 9 shipped libraries, every group'
+            % (NS[t], len(HS[t]), NY[t],
+               'uneq' if t == 'quick' else 'eq+uneq', len(w3.HREF), len(w3.SREF),
+               len(YAML_ROUTES)) for t in NS}
 RULE = ('every member of the family K x every supply order x every grid '
         'temperature (range ends, T_ref, knots, inter-knot midpoints, range '
         'midpoint) is evaluated; a correlation is non-trivial when it exercises '
         'continuation outside the table or a reference temperature not strictly '
         'inside the table or fewer than four points; counted per distinct '
-        '(table, T_ref, range, reference values)')
+        '(table, T_ref, range, reference values); every (table, T_ref, range, '
+        'reference pair) of family Y is evaluated through every constructor and '
+        'every YAML route and counts once (its range is wide or absent)')
 ASSUMPTIONS = ['the interpolant between knots is whatever get_CpoR returns: '
                'the integral relations are judged against the correlation\'s '
                'own Cp (statement does not fix the interpolation order)',
                'tolerances: 1e-9 relative on T*H/RT differences; '
                'on S/R: 1e-5 (scipy quad inside the implementation, observed noise up to 8e-7)',
-               'numpy for the implementation only; the oracle is pure Python']
+               'numpy for the implementation only; the oracle is pure Python',
+               'YAML route: only the non-dimensional form (ND_H_ref, ND_S_ref, '
+               'ND_Cp_data, temperatures in K) is written, so no gas constant '
+               'enters; dimensional entries and other units are C12; the loaded '
+               'object is compared with the constructor object on the small grid '
+               '(same data, two routes) rather than re-integrated',
+               'reference values up to 1e6 only: with 1e300 the sum S_ref + '
+               'integral is absorbed in floating point and the integral relation '
+               'cannot hold for any implementation']
 MANIFEST = dict(
     technique='bounded-exhaustive enumeration of a correlation family x all '
               'supply orders vs closed-form / independent quadrature oracle',
@@ -58,9 +98,15 @@ MANIFEST = dict(
          'reference values, every supply order, three classes, on the full '
          'temperature grid - plus every group of the nine shipped libraries - '
          'are checked against integrals computed independently of the '
-         'implementation. Exhaustive inside that family.',
+         'implementation. Every base member is also read back from the YAML '
+         'text of a library entry by the three classes, and a second family '
+         'crosses all pairs of reference values from {0.0, -0.0, 1e-300, '
+         'ordinary, 1e6} with the three constructors and the YAML route '
+         '(three number spellings, reversed point order, T_ref line omitted). '
+         'Exhaustive inside that family.',
     note='Temperatures are grid points, not all reals; table sizes above 16 '
-         'and other value shapes are not covered.',
+         'and other value shapes are not covered. YAML entries in dimensional '
+         'form (H_ref, S_ref, Cp_data with units) are not part of this check.',
     ref='5/C05')
 
 
@@ -121,6 +167,12 @@ def shards(tier, seed):
             for shape in shapes_for(N):
                 for pl in PLACEMENTS:
                     out.append(('K', N, spacing, shape, pl))
+    for N in NY[tier]:
+        for spacing in SPACINGS_Y[tier](N):
+            for pl in PLACEMENTS + ['default']:
+                if pl != 'default' and tref_for(table(N, spacing, 'seq')[0], pl) is None:
+                    continue
+                out.append(('Y', N, spacing, pl))
     for name in libs.LIBS:
         out.append(('lib', name))
     return out
@@ -348,6 +400,128 @@ def run_K(R, N, spacing, shape, pl, tier, only=None):
                                         cls_name, desc, o, bad[0][1], bad[0][0],
                                         bad[0][2]), dict(kind='K', desc=desc))
                         break
+            # construction path of every shipped correlation: the same data
+            # written as the YAML text of a library entry and read back
+            if variant == 'base':
+                yaml_route(R, ref, H, S, Ts, Cps, Tref, rng, [('repr', 'sorted')],
+                           False, desc, dict(kind='K', desc=desc))
+
+
+def judge_loaded(cls_name, yard, H, S, Ts, Cps, Tref, rng, text):
+    """Oracle for one correlation read from YAML text: it must load, evaluate
+    without an error, reproduce the knots, return the reference values at
+    T_ref, give G = H - S (at the range ends and T_ref), and agree on the
+    small grid with `yard`, the (Cp,H,S) values of the object the constructor
+    makes from the same numbers in sorted order (that object is judged against
+    the integrals by judge_correlation).  Returns [(check, detail)]."""
+    try:
+        k = w3.yaml_load(cls_name, text)
+    except Exception as e:     # noqa
+        return [('load-failed', '%s: %s' % (type(e).__name__, str(e)[:200]))]
+    sg = small_grid(Ts, Tref, rng)
+    probs = []
+    vals = {}
+    G = {}
+    T = None
+    try:
+        for T, want in zip(Ts, Cps):
+            cp = float(k.get_CpoR(T))
+            if rel(cp, want) > 1e-9 and not probs:
+                probs.append(('knot', 'Cp/R(%g)=%r, tabulated %r' % (T, cp, want)))
+        for T in sg:
+            vals[T] = (float(k.get_CpoR(T)), float(k.get_HoRT(T)),
+                       float(k.get_SoR(T)))
+        for T in sorted({sg[0], Tref, sg[-1]}):
+            G[T] = float(k.get_GoRT(T))
+    except Exception as e:     # noqa
+        return [('exception', 'T=%r: %s: %s' % (T, type(e).__name__, str(e)[:200]))]
+    if rel(vals[Tref][1], H) > 1e-9:
+        probs.append(('ref-H', 'H/RT(T_ref=%g)=%r, reference %r' % (Tref, vals[Tref][1], H)))
+    if abs(vals[Tref][2] - S) > 1e-9 * max(1.0, abs(S)):
+        probs.append(('ref-S', 'S/R(T_ref=%g)=%r, reference %r' % (Tref, vals[Tref][2], S)))
+    for T in sorted(G):
+        if G[T] != vals[T][1] - vals[T][2]:
+            probs.append(('G', 'G/RT(%g)=%r but H/RT-S/R=%r' % (T, G[T], vals[T][1] - vals[T][2])))
+            break
+    if yard is not None:
+        for T, d in zip(sg, yard):
+            if any(rel(x, y) > 1e-12 for x, y in zip(vals[T], d)):
+                probs.append(('differs', '(Cp,H,S)(%g)=%r, the constructor with the same '
+                              'numbers gives %r' % (T, vals[T], tuple(d))))
+                break
+    return probs
+
+
+def yaml_route(R, yard, H, S, Ts, Cps, Tref, rng, routes, omit_tref, desc, wit):
+    for cls_name in ('RawData', 'Incomplete', 'Group'):
+        for how, order in routes:
+            if order == 'reversed' and len(Ts) == 1:
+                continue
+            text = w3.yaml_text(H, S, Ts, Cps, Tref, rng, how, omit_tref=omit_tref,
+                                order=None if order == 'sorted' else list(range(len(Ts)))[::-1])
+            probs = judge_loaded(cls_name, yard, H, S, Ts, Cps, Tref, rng, text)
+            R.evals += 1
+            R.outcomes['yaml:%s' % ('consistent' if not probs else 'inconsistent')] += 1
+            for chk, detail in probs[:2]:
+                R.violation('yaml:%s:%s' % (chk, cls_name),
+                            '%s read from YAML (numbers spelled %r, points %s) %s: %s\n'
+                            '--- text ---\n%s' % (cls_name, how, order, desc, detail, text), wit)
+
+
+def dkey(d):
+    return json.dumps(d, sort_keys=True)
+
+
+def run_Y(R, N, spacing, pl, tier, only=None):
+    """Reference-value alphabet x construction route.  The non-polynomial
+    table (it has a zero and a negative Cp value), the wide range and - when
+    T_ref lies in the table - no range, ALL pairs HREF x SREF: the three
+    constructor objects are judged in full (judge_correlation), the YAML
+    objects (three classes x YAML_ROUTES) by judge_loaded."""
+    Ts, Cps, c = table(N, spacing, 'seq')
+    Tref = w3.T_REF_DEFAULT if pl == 'default' else tref_for(Ts, pl)
+    if Tref is None:
+        return
+    for rname, rng in ranges_for(Ts, Tref):
+        if rname == 'tight':
+            continue
+        for (H, S) in w3.ref_pairs():
+            desc = dict(N=N, spacing=spacing, shape='seq', placement=pl,
+                        range=rname, H=H, S=S, variant='refval')
+            if only is not None and dkey(only) != dkey(desc):
+                continue
+            wit = dict(kind='Y', desc=desc)
+            # every case of this family is non-trivial by RULE: the range is
+            # wide (continuation) or the text has no range line
+            R.nontrivial += 1
+            R.sample(dict(desc, Ts=Ts[:4], Cps=Cps[:4], T_ref=Tref,
+                          text=w3.yaml_text(H, S, Ts, Cps, Tref, rng, 'int',
+                                            omit_tref=(pl == 'default'))), limit=1)
+            yard = None
+            for cls_name in ('RawData', 'Incomplete', 'Group'):
+                try:
+                    k = build(cls_name, H, S, Ts, Cps, Tref, rng, list(range(N)))
+                except Exception as e:   # noqa
+                    R.evals += 1
+                    R.outcomes['construct-failed'] += 1
+                    R.violation('construct:%s:tref=%s' % (cls_name, pl),
+                                '%s cannot be built for %s: %s: %s' % (
+                                    cls_name, desc, type(e).__name__, e), wit)
+                    continue
+                probs, vals = judge_correlation(k, H, S, Ts, Cps, Tref, rng, c)
+                R.evals += max(1, len(vals))
+                R.outcomes['consistent' if not probs else 'inconsistent'] += 1
+                for chk, detail in probs[:3]:
+                    R.violation(('G:%s' % cls_name) if chk == 'G' else '%s:tref=%s:N=%s' % (chk, pl, '1' if N == 1 else 'n'),
+                                '%s %s: %s' % (cls_name, desc, detail), wit)
+                if yard is None:
+                    try:
+                        yard = [(float(k.get_CpoR(T)), float(k.get_HoRT(T)),
+                                 float(k.get_SoR(T))) for T in small_grid(Ts, Tref, rng)]
+                    except Exception:    # noqa  (already reported by the judge above)
+                        yard = None
+            yaml_route(R, yard, H, S, Ts, Cps, Tref, rng, YAML_ROUTES,
+                       pl == 'default', desc, wit)
 
 
 def run_lib(R, name, only=None):
@@ -381,6 +555,8 @@ def run_shard(shard, tier):
     R = Result()
     if shard[0] == 'K':
         run_K(R, shard[1], shard[2], shard[3], shard[4], tier)
+    elif shard[0] == 'Y':
+        run_Y(R, shard[1], shard[2], shard[3], tier)
     else:
         run_lib(R, shard[1])
     return R
@@ -392,6 +568,9 @@ def replay(w):
         d = w['desc']
         tier = 'thorough'
         run_K(R, d['N'], d['spacing'], d['shape'], d['placement'], tier, only=d)
+    elif w['kind'] == 'Y':
+        d = w['desc']
+        run_Y(R, d['N'], d['spacing'], d['placement'], 'thorough', only=d)
     else:
         run_lib(R, w['lib'], only=w['group'])
     return dict(violates=bool(R.violations),
